@@ -240,6 +240,7 @@ def baseline_of(modules: typing.Dict[str, typing.Any]) -> dict:
       h, locs, attrs = skeleton(f, keep, all_attrs_private=ap)
       d[q] = {"h": h, "h2": skeleton2(f, keep, priv, ap), "locals": locs, "attrs": attrs}
     out[name] = d
+    out.setdefault("_module_names", {})[name] = sorted(keep)
   return out
 
 
@@ -678,6 +679,85 @@ def inline_new_locals(q, fn, base_locals, log, name):
     log.append(f"{name}: locals of `{q}` that the reference does not have were inlined ({', '.join(done[:8])})")
 
 
+class _RenameLoad(ast.NodeTransformer):
+  def __init__(self, old, new):
+    self.old, self.new = old, new
+
+  def visit_Name(self, n):
+    if n.id == self.old:
+      return ast.copy_location(ast.Name(id=self.new, ctx=n.ctx), n)
+    return n
+
+
+def prefilter_loops(q, fn, log, name):
+  """`for x in [y for y in it if c(y)]: body` in a function that differs from the reference is read
+  as `for x in it: if c(x): body` (the pre-filtered list and the filtering loop visit the same items
+  in the same order; they differ only if the body changes what c reads - accepted approximation,
+  logged).  A snapshot `list(it)` is kept around the iterable, as the comprehension took one."""
+  done = 0
+  for node in list(_own_walk(fn)):
+    if not (isinstance(node, ast.For) and not node.orelse and isinstance(node.target, ast.Name) and isinstance(node.iter, (ast.ListComp, ast.GeneratorExp))):
+      continue
+    comp = node.iter
+    if len(comp.generators) != 1 or comp.generators[0].is_async:
+      continue
+    g = comp.generators[0]
+    if not (isinstance(g.target, ast.Name) and isinstance(comp.elt, ast.Name) and comp.elt.id == g.target.id and g.ifs):
+      continue
+    x, y = node.target.id, g.target.id
+    tests = [_RenameLoad(y, x).visit(_clone(t)) for t in g.ifs]
+    test = tests[0] if len(tests) == 1 else ast.BoolOp(op=ast.And(), values=tests)
+    it = g.iter
+    if isinstance(comp, ast.ListComp) and not (isinstance(it, ast.Call) and isinstance(it.func, ast.Name) and it.func.id in ("list", "tuple", "sorted")) \
+        and not isinstance(it, (ast.Name, ast.Attribute)):
+      it = ast.Call(func=ast.Name(id="list", ctx=ast.Load()), args=[it], keywords=[])
+    node.iter = ast.copy_location(it, comp)
+    node.body = [ast.copy_location(ast.If(test=test, body=node.body, orelse=[]), node.body[0])]
+    ast.fix_missing_locations(node)
+    done += 1
+  if done:
+    relink(fn)
+    log.append(f"{name}: {done} loop(s) over a filtering comprehension in `{q}` read as loop + if")
+
+
+def result_var_to_returns(q, fn, base_locals, log, name):
+  """`if c: v = a  elif d: v = b  else: v = e ; return v` with a local v the reference does not
+  have is the single-exit spelling of `if c: return a ...`: the early returns are restored."""
+  body = fn.body
+  if len(body) < 2 or not (isinstance(body[-1], ast.Return) and isinstance(body[-1].value, ast.Name) and isinstance(body[-2], ast.If)):
+    return
+  v = body[-1].value.id
+  params = {a.arg for a in fn.args.posonlyargs + fn.args.args + fn.args.kwonlyargs}
+  if v in base_locals or v in params:
+    return
+  finals = []
+
+  def conv(block) -> bool:
+    if not block:
+      return False
+    last = block[-1]
+    if isinstance(last, (ast.Return, ast.Raise)):
+      return True
+    if isinstance(last, ast.Assign) and len(last.targets) == 1 and isinstance(last.targets[0], ast.Name) and last.targets[0].id == v:
+      finals.append((block, last))
+      return True
+    if isinstance(last, ast.If) and last.orelse:
+      return conv(last.body) and conv(last.orelse)
+    return False
+  if not conv([body[-2]]):
+    return
+  names = [n for n in _own_walk(fn) if isinstance(n, ast.Name) and n.id == v]
+  stores = [n for n in names if isinstance(n.ctx, ast.Store)]
+  loads = [n for n in names if isinstance(n.ctx, ast.Load)]
+  if len(loads) != 1 or len(stores) != len(finals) or any(isinstance(x, ast.Name) and x.id == v for _, st in finals for x in ast.walk(st.value)):
+    return
+  for block, st in finals:
+    block[-1] = ast.copy_location(ast.Return(value=st.value), st)
+  del body[-1]
+  relink(fn)
+  log.append(f"{name}: result variable `{v}` of `{q}` (assigned in every branch, returned once) rewritten to the reference's early returns")
+
+
 # ---------------------------------------------------------------------------------------
 # D. idiom normalisation (independent of the reference)
 # ---------------------------------------------------------------------------------------
@@ -743,6 +823,80 @@ def normalise_idioms(tree, log, name):
 
 
 # ---------------------------------------------------------------------------------------
+# F. module-level constants the reference does not have ("hoist constant") are inlined again
+# ---------------------------------------------------------------------------------------
+
+_READERS = {"get", "items", "keys", "values", "index", "count", "copy", "match", "fullmatch", "search", "sub", "split", "findall", "finditer"}
+_PURE_CALLS = {"len", "sorted", "tuple", "list", "set", "frozenset", "dict", "enumerate", "any", "all", "min", "max", "sum", "iter", "reversed", "zip", "map", "filter", "isinstance", "issubclass"}
+
+
+def _readonly_use(u) -> bool:
+  pa = getattr(u, "_parent", None)
+  if isinstance(pa, ast.Compare):
+    return any(c is u for c in pa.comparators) and all(isinstance(o, (ast.In, ast.NotIn)) for o in pa.ops)
+  if isinstance(pa, ast.Subscript) and pa.value is u:
+    return isinstance(pa.ctx, ast.Load)
+  if isinstance(pa, ast.Attribute) and pa.value is u:
+    return pa.attr in _READERS and isinstance(getattr(pa, "_parent", None), ast.Call)
+  if isinstance(pa, (ast.For, ast.comprehension)) and pa.iter is u:
+    return True
+  if isinstance(pa, ast.Call) and isinstance(pa.func, ast.Name) and pa.func.id in _PURE_CALLS and any(a is u for a in pa.args):
+    return True
+  if isinstance(pa, ast.Starred):
+    return True
+  return False
+
+
+def inline_new_constants(name, tree, ref_names, imported_elsewhere, log):
+  done = []
+  for st in list(tree.body):
+    if isinstance(st, ast.Assign) and len(st.targets) == 1 and isinstance(st.targets[0], ast.Name):
+      c, val = st.targets[0].id, st.value
+    elif isinstance(st, ast.AnnAssign) and isinstance(st.target, ast.Name) and st.value is not None:
+      c, val = st.target.id, st.value
+    else:
+      continue
+    if c in ref_names or c in imported_elsewhere or not (_is_private(c) or c.isupper()) or c.startswith("__"):
+      continue
+    if any(isinstance(x, (ast.Lambda, ast.Yield, ast.YieldFrom, ast.Await, ast.NamedExpr)) for x in ast.walk(val)):
+      continue
+    names = [n for n in ast.walk(tree) if isinstance(n, ast.Name) and n.id == c]
+    stores = [n for n in names if not isinstance(n.ctx, ast.Load)]
+    loads = [n for n in names if isinstance(n.ctx, ast.Load)]
+    if len(stores) != 1 or not loads:
+      continue
+    if any(isinstance(x, (ast.Global, ast.Nonlocal)) and c in x.names for x in ast.walk(tree)):
+      continue
+    if any(isinstance(a, ast.arg) and a.arg == c for a in ast.walk(tree)):
+      continue
+    bad = False
+    for u in loads:
+      pa = getattr(u, "_parent", None)
+      if isinstance(pa, ast.Subscript) and pa.value is u and isinstance(pa.ctx, (ast.Store, ast.Del)):
+        bad = True
+      if isinstance(pa, ast.Attribute) and pa.attr in _MUTATORS and isinstance(getattr(pa, "_parent", None), ast.Call):
+        bad = True
+      if isinstance(pa, ast.AugAssign) and pa.target is u:
+        bad = True
+    # a mutable container may only be inlined where it is read in place: an alias (`x = _TABLE`, an argument, a
+    # return value) could be mutated later, and that would change the shared object but not an inlined copy
+    mutable = isinstance(val, (ast.List, ast.Dict, ast.Set, ast.ListComp, ast.DictComp, ast.SetComp)) or \
+      (isinstance(val, ast.Call) and not (isinstance(val.func, ast.Name) and val.func.id in ("tuple", "frozenset", "range", "str", "int", "float", "Fraction", "len")) and
+       not (isinstance(val.func, ast.Attribute) and val.func.attr == "compile"))
+    if mutable and not all(_readonly_use(u) for u in loads):
+      continue
+    if bad:
+      continue
+    for u in loads:
+      _replace_expr(u, _clone(val))
+    tree.body.remove(st)
+    relink(tree)
+    done.append(c)
+  if done:
+    log.append(f"{name}: module-level constants that the reference does not have were inlined at their uses ({', '.join(done[:8])})")
+
+
+# ---------------------------------------------------------------------------------------
 # driver
 # ---------------------------------------------------------------------------------------
 
@@ -753,11 +907,15 @@ def canonicalise(modules: typing.Dict[str, typing.Any], baseline: typing.Optiona
   if not baseline:
     return log
   attr_renames: typing.Dict[str, str] = {}     # package-wide: new private name -> reference name (functions / methods)
+  ref_names = baseline.get("_module_names", {})
+  imported = {a.name for m in modules.values() for st in ast.walk(m.tree) if isinstance(st, ast.ImportFrom) for a in st.names}
   for name, m in modules.items():
     base = baseline.get(name)
-    if base is None:
+    if base is None or name.startswith("_"):
       continue
     try:
+      if name in ref_names:
+        inline_new_constants(name, m.tree, set(ref_names[name]), imported, log)
       _canon_module(name, m, base, log, attr_renames)
       normalise_idioms(m.tree, log, name)
     except Exception as e:   # the pass must never break the analysis
@@ -814,14 +972,21 @@ def _canon_module(name, m, base, log, attr_renames):
   # --- B. new private helpers are inlined ---------------------------------------------
   for _round in range(6):
     cur = functions_of(tree)
-    helpers = [(q, f) for q, f in cur.items() if q not in base and _is_private(f.name) and ".<locals>." not in q]
+    # (a function nested in another one is never part of the interface, whatever its name)
+    helpers = [(q, f) for q, f in cur.items() if q not in base and (_is_private(f.name) or ".<locals>." in q)]
     progressed = False
     for q, h in helpers:
       kind = classify_helper(h)
       if kind is None:
         continue
-      cls_name = q.rsplit(".", 2)[-2] if "." in q else None
-      sites = [(c, mc) for c, mc in _calls_to(tree, h.name, cls_name) if not any(x is c for x in ast.walk(h))]
+      if ".<locals>." in q:
+        outer = cur.get(q.rsplit(".<locals>.", 1)[0])
+        if outer is None or "." in q.rsplit(".<locals>.", 1)[1]:
+          continue
+        cls_name, scope = None, outer
+      else:
+        cls_name, scope = (q.rsplit(".", 2)[-2] if "." in q else None), tree
+      sites = [(c, mc) for c, mc in _calls_to(scope, h.name, cls_name) if not any(x is c for x in ast.walk(h))]
       if not sites:
         continue
       done = 0
@@ -853,6 +1018,8 @@ def _canon_module(name, m, base, log, attr_renames):
     h, locs, attrs = skeleton(fn, keep, all_attrs_private=in_private_class(q))
     if h != b["h"]:
       try:
+        result_var_to_returns(q, fn, b["locals"], log, name)
+        prefilter_loops(q, fn, log, name)
         inline_new_locals(q, fn, b["locals"], log, name)
       except Exception as e:
         log.append(f"{name}: `{q}`: new locals left in place ({type(e).__name__}: {e})")
